@@ -206,16 +206,15 @@ theorem setBody_chars (J : List Item) (hn : ∀ x ∈ J, x.NonNeg) :
             rcases hc with h | h <;> subst h <;> decide
           · exact ih (fun x hx => hn x (by simp [hx])) c hc
 
-/-- **`max_length` at least two columns shorter than the head token `SET n = `**: no line of the statement is a SET
+/-- **the first line stops at least two columns before the end of the head token `SET n = `**: no line of the statement is a SET
 header (the first line is a piece of the head without its `=`, no other line has an `S`), so `rdsets` finds no set -/
-theorem rdSets_header_split (setid : Int) (ids : List Int) (m : Nat) (hs : 0 ≤ setid) (hn : ∀ x ∈ ids, 0 ≤ x)
-    (h2 : 2 ≤ m) (hlong : m + 2 ≤ (txt "SET " ++ dec setid ++ txt " = ").length) :
+theorem rdSets_first_short (setid : Int) (ids : List Int) (m : Nat) (hs : 0 ≤ setid) (hn : ∀ x ∈ ids, 0 ≤ x)
+    (l0 : Txt) (rest : List Txt)
+    (hl : wrapLines m ((txt "SET " ++ dec setid ++ txt " = ") :: setBody (compress ids)) = l0 :: rest) (hl0 : l0 ≠ [])
+    (hlen0 : l0.length ≤ (txt "SET " ++ dec setid ++ txt " = ").length - 2) :
     rdSets (setLines setid ids m) = some [] := by
   have hJn := compress_nonneg ids hn
-  have hhne : txt "SET " ++ dec setid ++ txt " = " ≠ [] := by simp [txt]
-  obtain ⟨l0, rest, hl, hl0⟩ := wrapLines_head m h2 (txt "SET " ++ dec setid ++ txt " = ") (setBody (compress ids)) hhne
   have hflat := wrapLines_flatten m ((txt "SET " ++ dec setid ++ txt " = ") :: setBody (compress ids))
-  have hfit := wrapLines_fits_any m h2 ((txt "SET " ++ dec setid ++ txt " = ") :: setBody (compress ids)) l0 (by rw [hl]; simp)
   rw [hl] at hflat
   simp only [List.flatten_cons] at hflat
   -- the head token as 'S' :: tail, tail without a character that lower-cases to `s`
@@ -235,7 +234,6 @@ theorem rdSets_header_split (setid : Int) (ids : List Int) (m : Nat) (hs : 0 ≤
       · exact notS_digit h1
       · exact notS_of_mem c h1
   -- the first line is a prefix of the head that stops before the `=`
-  have hlen0 : l0.length ≤ (txt "SET " ++ dec setid ++ txt " = ").length - 2 := by omega
   have hpre : l0 = (txt "SET " ++ dec setid ++ txt " = ").take l0.length := by
     have e1 : (l0 ++ rest.flatten).take l0.length = l0 := by simp
     rw [hflat, List.take_append_of_le_length (by omega)] at e1
@@ -280,5 +278,56 @@ theorem rdSets_header_split (setid : Int) (ids : List Int) (m : Nat) (hs : 0 ≤
     · exact setHead_none_of_notS l (hrest l hlm)
   unfold rdSets
   exact rdSetsAux_no_head _ hall _ []
+
+/-- **`max_length` at least two columns shorter than the head token `SET n = `** -/
+theorem rdSets_header_split (setid : Int) (ids : List Int) (m : Nat) (hs : 0 ≤ setid) (hn : ∀ x ∈ ids, 0 ≤ x)
+    (h2 : 2 ≤ m) (hlong : m + 2 ≤ (txt "SET " ++ dec setid ++ txt " = ").length) :
+    rdSets (setLines setid ids m) = some [] := by
+  have hhne : txt "SET " ++ dec setid ++ txt " = " ≠ [] := by simp [txt]
+  obtain ⟨l0, rest, hl, hl0⟩ := wrapLines_head m h2 (txt "SET " ++ dec setid ++ txt " = ") (setBody (compress ids)) hhne
+  have hfit := wrapLines_fits_any m h2 ((txt "SET " ++ dec setid ++ txt " = ") :: setBody (compress ids)) l0 (by rw [hl]; simp)
+  exact rdSets_first_short setid ids m hs hn l0 rest hl hl0 (by omega)
+
+/-- a first token exactly one column too long is cut into its first `max_length − 1` characters, alone on the first
+line, and its last two characters, which begin the second line -/
+theorem wrapLines_cut_first (m : Nat) (H : Txt) (ts : List Txt) (hm : 3 ≤ m) (hlen : H.length = m + 1) :
+    wrapLines m (H :: ts) =
+      H.take (m - 1) :: (wrapGo m [H.drop (m - 1)] (H.drop (m - 1)).length (presplit m ts)).map List.flatten := by
+  have hc : chunks (m - 1) H = [H.take (m - 1), H.drop (m - 1)] := by
+    rw [chunks_eq, if_neg (by omega), chunks_eq, if_pos (by right; simp; omega)]
+    have : (H.drop (m - 1)).isEmpty = false := by
+      cases hq : H.drop (m - 1) with
+      | nil => have := congrArg List.length hq; simp at this; omega
+      | cons a b => rfl
+    simp [this]
+  have hp : presplit m (H :: ts) = H.take (m - 1) :: H.drop (m - 1) :: presplit m ts := by
+    unfold presplit
+    simp only [List.flatMap_cons]
+    rw [if_pos (by omega), hc]
+    rfl
+  have h1 : (H.take (m - 1)).length = m - 1 := by simp only [List.length_take]; omega
+  have h2 : (H.drop (m - 1)).length = 2 := by simp only [List.length_drop]; omega
+  unfold wrapLines wrapGroups
+  simp only [hp]
+  rw [if_neg (by simp)]
+  rw [wrapGo, if_neg (by omega)]
+  rw [wrapGo, if_pos (by simp only [h1, h2]; omega)]
+  simp
+
+/-- **`max_length` exactly one column shorter than the head token**: the head is cut into `SET n ` (`max_length − 1`
+characters) and `= `; the second piece does not fit behind the first, so the first line is `SET n ` — no `=`, no
+SET header — and `rdsets` finds no set -/
+theorem rdSets_header_split1 (setid : Int) (ids : List Int) (m : Nat) (hs : 0 ≤ setid) (hn : ∀ x ∈ ids, 0 ≤ x)
+    (hlong : (txt "SET " ++ dec setid ++ txt " = ").length = m + 1) :
+    rdSets (setLines setid ids m) = some [] := by
+  have hm : 6 ≤ m := by
+    have : (txt "SET " ++ dec setid ++ txt " = ").length = 4 + (dec setid).length + 3 := by simp [txt]; omega
+    omega
+  have hl := wrapLines_cut_first m _ (setBody (compress ids)) (by omega) hlong
+  have h1 : ((txt "SET " ++ dec setid ++ txt " = ").take (m - 1)).length = m - 1 := by
+    simp only [List.length_take]; omega
+  refine rdSets_first_short setid ids m hs hn _ _ hl ?_ ?_
+  · intro e; rw [e] at h1; simp at h1; omega
+  · rw [h1]; omega
 
 end PyYetiVerif.Bulk
